@@ -75,6 +75,7 @@ type Stats struct {
 	OldReads           int // historical reads of a version older than the latest
 	DistinctNontrivial int
 	RootAgree          int // commits whose root hash equalled the twin instance's
+	HeldCases          int // cases without deletions run with history handles kept across commits
 	Samples            []string
 }
 
@@ -83,6 +84,13 @@ type runner struct {
 	l    *ledger.FinalityLedger[*item]
 	ops  []string // tree ops of the running commit, via the verif hook
 	name string
+	// hold: a history handle is opened for every version at the moment it is committed (while it is the
+	// head) and KEPT; historical point reads of that version go through the kept handle, whatever was
+	// committed since.  Only used in cases without deletions: on a kept handle IAVL answers "not found"
+	// for keys deleted later and iterates the newest state (its fast-node index serves a tree that
+	// believes it is the latest) — the application never keeps a handle across a commit.
+	hold bool
+	held map[int64]ledger.ILedger[*item]
 }
 
 func open(dir, name string) (*ledger.FinalityLedger[*item], error) {
@@ -176,8 +184,19 @@ func (r *runner) apply(o Op) (string, []byte, error) {
 		if xerr != nil {
 			return "OErr", nil, nil
 		}
+		if r.hold {
+			if im, xerr := l.ImmutableLedgerAt(ver, 16); xerr == nil {
+				if r.held == nil {
+					r.held = map[int64]ledger.ILedger[*item]{}
+				}
+				r.held[ver] = im
+			}
+		}
 		return fmt.Sprintf("(OCommitted %d [%s])", ver, strings.Join(r.ops, "; ")), h, nil
 	case "ReadAt":
+		if im, ok := r.held[o.N]; ok && r.hold && o.N >= 1 {
+			return outRead(im.Read(mkKey(o.K))), nil, nil
+		}
 		im, xerr := l.ImmutableLedgerAt(o.N, 16)
 		if xerr != nil {
 			return "OErr", nil, nil
@@ -198,12 +217,20 @@ func (r *runner) apply(o Op) (string, []byte, error) {
 			return "", nil, err
 		}
 		r.l = nl
+		r.held = nil
 		return "ONil", nil, nil
 	}
 	return "", nil, fmt.Errorf("unknown op %q", o.Kind)
 }
 
 func genCase(rng *rand.Rand, st *Stats) []Op {
+	ops, _ := genCaseHeld(rng, st)
+	return ops
+}
+
+// genCaseHeld: every fourth case has no deletions and many historical reads; it is run with kept handles
+func genCaseHeld(rng *rand.Rand, st *Stats) ([]Op, bool) {
+	held := rng.Intn(4) == 0
 	nkeys := 1 + rng.Intn(5)
 	n := 15 + rng.Intn(45)
 	var ops []Op
@@ -214,6 +241,19 @@ func genCase(rng *rand.Rand, st *Stats) []Op {
 		k := 1 + rng.Intn(nkeys)
 		v := uint64(1 + rng.Intn(9))
 		x := rng.Intn(100)
+		if held {
+			// no deletions; their share goes to writes, commits and historical reads
+			switch {
+			case x >= 24 && x < 30, x >= 57 && x < 60:
+				x = 0 // SetF
+			case x >= 30 && x < 34, x >= 38 && x < 42, x >= 60 && x < 62, x >= 65 && x < 68:
+				x = 80 // Commit
+			case x >= 96:
+				if rng.Intn(3) > 0 {
+					x = 90 // ReadAt instead of most reopenings
+				}
+			}
+		}
 		var o Op
 		switch {
 		case x < 14:
@@ -272,7 +312,10 @@ func genCase(rng *rand.Rand, st *Stats) []Op {
 	if recreate || oldread {
 		st.DistinctNontrivial++
 	}
-	return ops
+	if held {
+		st.HeldCases++
+	}
+	return ops, held
 }
 
 func corpus() [][]Op {
@@ -294,8 +337,11 @@ func Generate(seed int64, nCases int, outPath, scratch, jsonPath string) (*Stats
 	rng := rand.New(rand.NewSource(seed))
 	st := &Stats{ByKind: map[string]int{}, OutKinds: map[string]int{}}
 	all := corpus()
+	heldCase := map[int]bool{}
 	for i := 0; i < nCases; i++ {
-		all = append(all, genCase(rng, st))
+		ops, held := genCaseHeld(rng, st)
+		heldCase[len(all)] = held
+		all = append(all, ops)
 	}
 	type caseJSON struct {
 		Ops      []Op
@@ -320,7 +366,7 @@ func Generate(seed int64, nCases int, outPath, scratch, jsonPath string) (*Stats
 		if err != nil {
 			return nil, err
 		}
-		ra, rb := &runner{dir: dirA, l: la, name: "caseA"}, &runner{dir: dirB, l: lb, name: "caseB"}
+		ra, rb := &runner{dir: dirA, l: la, name: "caseA", hold: heldCase[ci]}, &runner{dir: dirB, l: lb, name: "caseB"}
 		var opS, outS []string
 		rootDiff := -1
 		for oi, o := range ops {
